@@ -432,9 +432,31 @@ def r04c(model, ctx):
     ifs = [s for s in fs.body if isinstance(s, ast.If) and unparse(s.test) == "signed"]
     ok = len(ifs) == 1
     if ok:
-        ws, wu = ifs[0].body[0], ifs[0].orelse[0]
-        ok = isinstance(ws, ast.While) and unparse(ws.test) == "len(value) > 1 and value[-1] == value[-2]" and \
-            isinstance(wu, ast.While) and unparse(wu.test) == "len(value) > 0 and value[-1] == _nir.Net.from_const(0)"
+        def loop_test(block):
+            """the conjuncts of the (single) while loop of a branch, locals bound before it substituted, emptiness tests of the
+            list normalised to `len(value) > 0`"""
+            loops = [x for x in block if isinstance(x, ast.While)]
+            if len(loops) != 1:
+                return None
+            env = {x.targets[0].id: unparse(x.value) for x in block[:block.index(loops[0])]
+                   if isinstance(x, ast.Assign) and len(x.targets) == 1 and isinstance(x.targets[0], ast.Name)}
+            t = loops[0].test
+            parts = t.values if isinstance(t, ast.BoolOp) and isinstance(t.op, ast.And) else [t]
+            out = set()
+            for q in parts:
+                q = copy.deepcopy(q)
+                for n in ast.walk(q):
+                    if isinstance(n, ast.Compare):
+                        n.comparators = [ast.parse(env[c.id], mode="eval").body if isinstance(c, ast.Name) and c.id in env else c
+                                         for c in n.comparators]
+                tx = unparse(q)
+                tx = {"value": "len(value) > 0", "len(value) >= 1": "len(value) > 0", "len(value) != 0": "len(value) > 0",
+                      "len(value) >= 2": "len(value) > 1"}.get(tx, tx)
+                out.add(tx)
+            return out
+        import copy
+        ok = loop_test(ifs[0].body) == {"len(value) > 1", "value[-1] == value[-2]"} and \
+            loop_test(ifs[0].orelse) == {"len(value) > 0", "value[-1] == _nir.Net.from_const(0)"}
     ctx.check(ok, R, "shorten_operand", "signed: drop MSB while equal to the next bit; unsigned: drop constant-0 MSBs",
               "shorten_operand must only drop bits that the matching extension restores", f"{RTLIL}:{fs.lineno}")
 
@@ -461,14 +483,42 @@ def r04d(model, ctx):
               f"{RTLIL}:{fp.lineno}")
     # $adff selection
     ff = model.func(f"{RTLIL}::ModuleEmitter.emit_flip_flop")
-    ifs = [s for s in ff.body if isinstance(s, ast.If) and pmatch("cell.arst == _nir.Net.from_const(0)", s.test) is not None]
-    ok = len(ifs) == 1
-    if ok:
-        t = " ".join(unparse(s) for s in ifs[0].body)
-        e = " ".join(unparse(s) for s in ifs[0].orelse)
-        ok = "cell_type = '$dff'" in t and "cell_type = '$adff'" in e and "ports['ARST'] = self.sigspec(cell.arst)" in e \
-            and "parameters['ARST_POLARITY'] = True" in e and \
-            "parameters['ARST_VALUE'] = _ast.Const(cell.init, len(cell.data))" in e
+    # by path: the test on `cell.arst` against the constant 0 decides the cell type and whether the three ARST entries are stored
+    from ..engine.symx import run_paths as _rp
+    ok, seen = True, set()
+    for p_ in _rp(ff.body):
+        zero = None
+        for c_, pol in p_.conds:
+            tx = unparse(c_)
+            if tx == "cell.arst == _nir.Net.from_const(0)":
+                zero = pol
+            elif tx == "cell.arst != _nir.Net.from_const(0)":
+                zero = not pol
+        if zero is None or p_.how == "raise":
+            continue
+        seen.add(zero)
+        stores = {unparse(e_.targets[0]): unparse(e_.value) for e_ in p_.effects
+                  if isinstance(e_, ast.Assign) and isinstance(e_.targets[0], ast.Subscript)}
+        ct = p_.env.get("cell_type")
+        ct = unparse(ct) if ct is not None else None
+        # the stores may have been forwarded into the dictionaries handed to builder.cell(...)
+        for e_ in p_.effects:
+            c_ = getattr(e_, "value", e_)
+            if isinstance(c_, ast.Call) and unparse(c_.func) == "self.builder.cell":
+                if c_.args:
+                    ct = unparse(c_.args[0])
+                for k_ in c_.keywords:
+                    if k_.arg in ("ports", "parameters") and isinstance(k_.value, ast.Dict):
+                        for dk, dv in zip(k_.value.keys, k_.value.values):
+                            if dk is not None:
+                                stores[f"{k_.arg}[{unparse(dk)}]"] = unparse(dv)
+        arst = {k: v for k, v in stores.items() if "ARST" in k}
+        if zero:
+            ok = ok and ct == "'$dff'" and not arst
+        else:
+            ok = ok and ct == "'$adff'" and arst == {"ports['ARST']": "self.sigspec(cell.arst)", "parameters['ARST_POLARITY']": "True",
+                                                     "parameters['ARST_VALUE']": "_ast.Const(cell.init, len(cell.data))"}
+    need(seen == {True, False}, "emit_flip_flop: the test of cell.arst against the constant 0 was not found")
     ctx.check(ok, R, "emit_flip_flop:$dff/$adff", "$adff iff arst is not constant 0; ARST_VALUE = init; active high",
               "a flip-flop must be a $dff iff arst is constant 0, otherwise an $adff with ARST=arst, ARST_POLARITY=True "
               "and ARST_VALUE=Const(init, width)", f"{RTLIL}:{ff.lineno}")
